@@ -188,7 +188,7 @@ fn client_result_events(log: &Rec, kind: &str, init: Option<&tonic::metadata::Me
 
 async fn drive_client<T>(mut cl: SvcClient<T>, stim: &Value, log: &Rec)
 where
-    T: tonic::client::GrpcService<Body> + Send,
+    T: tonic::client::GrpcService<Body> + Send + Clone,
     T::Error: Into<BoxErr>,
     T::ResponseBody: HttpBody<Data = Bytes> + Send + 'static,
     <T::ResponseBody as HttpBody>::Error: Into<BoxErr> + Send,
@@ -199,6 +199,9 @@ where
     for e in c["accept"].as_array().cloned().unwrap_or_default() { if let Some(e) = enc_of(e.as_str().unwrap_or("")) { cl = cl.accept_compressed(e); } }
     if let Some(n) = lim(&c["max_dec"]) { cl = cl.max_decoding_message_size(n); }
     if let Some(n) = lim(&c["max_enc"]) { cl = cl.max_encoding_message_size(n); }
+    // client.clone: the call is made on a clone of the configured client (generated clients are Clone; a clone must behave
+    // like the client it was cloned from)
+    if c["clone"].as_bool().unwrap_or(false) { let copy = cl.clone(); drop(cl); cl = copy; }
     let msgs: Vec<Vec<u8>> = stim["req"]["msgs"].as_array().cloned().unwrap_or_default().iter().map(json_bytes).collect();
     let (meta, rejected) = build_meta(&stim["req"]["meta"]);
     log.ev(json!({"e":"cli_built","rejected":rejected}));
@@ -261,7 +264,20 @@ async fn run_client_h2(stim: &Value, log: &Rec) {
         .connect_with_connector(tower::service_fn(move |_: http::Uri| { let c = c.take(); async move { c.map(hyper_util::rt::TokioIo::new).ok_or_else(|| std::io::Error::other("no more connections")) } }))
         .await;
     match ch {
-        Ok(ch) => drive_client(SvcClient::new(ch), stim, log).await,
+        Ok(ch) => {
+            // client.raw_timeout: the grpc-timeout header is overwritten with these bytes on the way out (malformed values
+            // cannot be produced through Request::set_timeout); the channel's own timeout layer and the server both see it
+            if stim["client"]["raw_timeout"].is_array() {
+                let raw = json_bytes(&stim["client"]["raw_timeout"]);
+                let svc = tower::ServiceBuilder::new().map_request(move |mut r: http::Request<Body>| {
+                    if let Ok(v) = http::HeaderValue::from_bytes(&raw) { r.headers_mut().insert("grpc-timeout", v); }
+                    r
+                }).service(ch);
+                drive_client(SvcClient::new(svc), stim, log).await
+            } else {
+                drive_client(SvcClient::new(ch), stim, log).await
+            }
+        }
         Err(e) => log.ev(json!({"e":"connect_err","msg":e.to_string()})),
     }
     srv.abort();
@@ -411,7 +427,7 @@ pub fn gen(seed: u64, tier: &str) -> Vec<Value> {
         let shim = if h2 { json!({"cap": 65536, "rq": rq, "wq": wq, "pend": pe}) } else { json!({"cap":0,"rq":0,"wq":0,"pend":0}) };
         out.push(json!({"mode":"client","class": if h2 {"h2"} else {"inproc"},"transport": if h2 {"h2"} else {"inproc"},"shim":shim,"shape":shape,
             "server":{"send":s_send,"accept":s_acc,"max_dec":-1,"max_enc":-1},
-            "client":{"send":c_send,"accept":c_acc,"max_dec":-1,"max_enc":-1},
+            "client":{"send":c_send,"accept":c_acc,"max_dec":-1,"max_enc":-1,"clone":rng.gen_bool(0.3)},
             "req":{"meta":crate::labs::status::rand_meta(&mut rng),"msgs":req_msgs},
             "script":rand_script(&mut rng, shape)}));
     }
